@@ -151,6 +151,10 @@ def atom_token(attrs):
     ar = bool(attrs.get("aromatic", False))
     ch = int(attrs.get("charge", 0))
     hc = int(attrs.get("hcount", 0))
+    if attrs.get("chiral"):
+        t = render.ftok("A", "[" + (el.lower() if ar else el) + "]", el=el, ar=ar, ch=0, hc=0,
+                        a=[{"k": "x", "v": attrs["chiral"], "eq": 1}])
+        return t
     if ch == 0 and el in ORGANIC and not attrs.get("force_bracket"):
         return render.ftok("A", el.lower() if ar else el, el=el, ar=ar, hc=-2)
     body = (el.lower() if ar else el)
@@ -161,7 +165,11 @@ def atom_token(attrs):
     return render.ftok("A", "[" + body + "]", el=el, ar=ar, ch=ch, hc=hc)
 
 
-def render_fragment(frag, descs, rng, style=None):
+class Unrenderable(Exception):
+    pass
+
+
+def render_fragment(frag, descs, rng, style=None, marks=None):
     """
     frag: nx.Graph (nodes with element/charge/aromatic/hcount, edges with order)
     descs: {node: [(kind, label, order_int, slashmark or None), ...]}
@@ -210,29 +218,63 @@ def render_fragment(frag, descs, rng, style=None):
             return "-" if (au and av) else (None if rng.random() < 0.9 else "-")
         return _SYM[o2]
 
+    marks = marks or {}
+
+    def mark_sign(u, v):
+        """sign of the mark on bond u-v read 'u before v' (0 = unmarked)"""
+        if (u, v) in marks:
+            return marks[(u, v)]
+        if (v, u) in marks:
+            return -marks[(v, u)]
+        return 0
+
     def emit_descs(u, leading):
-        for kind, label, order, _ in descs.get(u, []):
+        ds = list(descs.get(u, []))
+        # a descriptor that carries a slash mark is written next to the atom (last of the leading ones / first of the trailing)
+        if leading:
+            ds.sort(key=lambda d: d[3] is not None)
+        else:
+            ds.sort(key=lambda d: d[3] is None)
+        for kind, label, order, mk in ds:
             sym = {1: None, 2: "=", 3: "#", 0: ".", 4: "$"}[order]
             if leading:
                 toks.append(render.ftok("D", kind, el=label))
                 if sym:
                     toks.append(render.ftok("B", sym))
+                if mk:
+                    # (partner) mark u : read 'partner before u'
+                    toks.append(render.ftok("Z", "/" if mk["sign_partner_first"] > 0 else "\\"))
             else:
-                if sym:
+                if mk:
+                    # u mark (partner): read 'u before partner'
+                    toks.append(render.ftok("Z", "/" if -mk["sign_partner_first"] > 0 else "\\"))
+                elif sym:
                     toks.append(render.ftok("B", sym))
                 elif order == 1 and rng.random() < 0.1:
                     toks.append(render.ftok("B", "-"))
                 toks.append(render.ftok("D", kind, el=label))
 
+    for e in closing:
+        a_, b_ = tuple(e)
+        if mark_sign(a_, b_) != 0:
+            raise Unrenderable("marked bond closes a ring in this traversal")
+
     def write(u, first):
-        lead = first and bool(descs.get(u)) and rng.random() < 0.5
+        has_marked = any(d[3] is not None for d in descs.get(u, []))
+        want_lead = style.get("lead_marked") if has_marked else None
+        if has_marked:
+            if want_lead and not first:
+                raise Unrenderable("a leading marked descriptor needs its atom to be written first")
+            if not want_lead and (tree_children[u] or any(u in e for e in closing)):
+                raise Unrenderable("a trailing marked descriptor needs a leaf atom")
+        lead = first and bool(descs.get(u)) and (rng.random() < 0.5 if want_lead is None else want_lead)
         if lead:
             emit_descs(u, True)
         pos[u] = len(pos)
         toks.append(atom_token(frag.nodes[u]))
         rings = [e for e in closing if u in e]
         rng.shuffle(rings)
-        before = (not lead) and rng.random() < 0.5
+        before = (not lead) and (rng.random() < 0.5 or has_marked)
         if not lead and before:
             emit_descs(u, False)
         for e in rings:
@@ -257,6 +299,9 @@ def render_fragment(frag, descs, rng, style=None):
         for i, v in enumerate(kids):
             last = i == len(kids) - 1
             sym = bond_symbol(u, v)
+            ms = mark_sign(u, v)
+            if ms != 0:
+                sym = None
             # CGsmiles writes the bond symbol in front of the branch, SMILES inside it
             if sym and coarse:
                 toks.append(render.ftok("B", sym))
@@ -264,6 +309,8 @@ def render_fragment(frag, descs, rng, style=None):
                 toks.append(render.ftok("("))
             if sym and not coarse:
                 toks.append(render.ftok("B", sym))
+            if ms != 0:
+                toks.append(render.ftok("Z", "/" if ms > 0 else "\\"))
             write(v, False)
             if not last:
                 toks.append(render.ftok(")"))
@@ -350,7 +397,8 @@ def label_for(i):
     return letters[i % 26] + (str(i // 26) if i >= 26 else "")
 
 
-def make_cut_config(g, block, rng, kinds=("$", "<>"), share=0.0, style=None, prefix="F", label_offset=0):
+def make_cut_config(g, block, rng, kinds=("$", "<>"), share=0.0, style=None, prefix="F", label_offset=0,
+                    marks=None, cutmark="both"):
     """
     Build the CGsmiles configuration of molecule g cut along partition `block` (node -> block id).
     Returns dict(base tokens, frags [[name, tokens]], member: atom -> set(blocks in base numbering),
@@ -376,6 +424,7 @@ def make_cut_config(g, block, rng, kinds=("$", "<>"), share=0.0, style=None, pre
     frag_graph = {b: nx.Graph(g.subgraph(frag_nodes[b])) for b in blocks}
     descs = {b: {} for b in blocks}
     extra_member = {n: {block[n]} for n in g.nodes}
+    marked_cuts = []
     copies = {}         # (block, copy node key) -> original atom
     shared_ends = set()
     for i, (a, b) in enumerate(cuts):
@@ -409,20 +458,53 @@ def make_cut_config(g, block, rng, kinds=("$", "<>"), share=0.0, style=None, pre
             ka, kb = "$", "$"
         else:
             ka, kb = (">", "<") if rng.random() < 0.5 else ("<", ">")
-        descs[block[a]].setdefault(a, []).append((ka, lab, order, None))
-        descs[block[b]].setdefault(b, []).append((kb, lab, order, None))
+        mka = mkb = None
+        if marks and ((a, b) in marks or (b, a) in marks):
+            # the cut bond carries a slash mark: it is written next to the descriptor(s)
+            sab = marks[(a, b)] if (a, b) in marks else -marks[(b, a)]       # read 'a before b'
+            if cutmark in ("both", "a"):
+                mka = {"sign_partner_first": -sab}      # partner b first = read 'b before a'
+            if cutmark in ("both", "b"):
+                mkb = {"sign_partner_first": sab}       # partner a first
+            marked_cuts.append((a, b))
+        descs[block[a]].setdefault(a, []).append((ka, lab, order, mka))
+        descs[block[b]].setdefault(b, []).append((kb, lab, order, mkb))
     for b in blocks:
         for n in descs[b]:
             rng.shuffle(descs[b][n])
     base_toks, numbering = render_base(bg, rng, names)
     frags, posmap = [], {}
     for b in rng.sample(blocks, len(blocks)):
-        toks, pos = render_fragment(frag_graph[b], descs[b], rng, style)
+        fmarks = {k: v for k, v in (marks or {}).items() if k[0] in frag_graph[b] and k[1] in frag_graph[b]}
+        st = dict(style or {})
+        marked_here = [n for n in descs[b] if any(d[3] is not None for d in descs[b][n])]
+        if marked_here:
+            # ligand side: trailing on a leaf; anchor side: leading on the start atom - decide by degree
+            n0 = marked_here[0]
+            if frag_graph[b].degree(n0) == 0 or (frag_graph[b].degree(n0) == 1 and rng.random() < 0.5):
+                st["lead_marked"] = frag_graph[b].degree(n0) == 0 and rng.random() < 0.5
+                if not st["lead_marked"]:
+                    others = [x for x in frag_graph[b].nodes if x != n0]
+                    if others:
+                        st["start"] = rng.choice(others)
+            else:
+                st["lead_marked"] = True
+                st["start"] = n0
+        toks = None
+        for _ in range(12):
+            try:
+                toks, pos = render_fragment(frag_graph[b], descs[b], rng, st, marks=fmarks)
+                break
+            except Unrenderable:
+                continue
+        if toks is None:
+            return None
         frags.append([names[b], toks])
         for n, p in pos.items():
             posmap[(names[b], p)] = copies.get((b, n), n)
     member = {n: sorted(numbering[b] for b in bs) for n, bs in extra_member.items()}
     return {"base": base_toks, "frags": frags, "member": member, "posmap": posmap, "bg": bg, "names": names,
+            "marked_cuts": len(marked_cuts),
             "nshared": len(copies), "ncuts": len(cuts), "nblocks": len(blocks)}
 
 
@@ -457,3 +539,51 @@ def layered_config(g, rng, nlevels, share_top=0.0, share_atom=0.0):
         cur = nxt
     return {"top": cur["base"], "coarse_levels": [lv["frags"] for lv in reversed(levels)], "atomistic": cfg1,
             "nlevels": len(levels)}
+
+
+# ----------------------------------------------------------------------------------------------
+# stereo molecules (C15)
+# ----------------------------------------------------------------------------------------------
+STEREO = [
+    "F/C=C/Cl", "F/C=C\\Cl", "C/C=C/C", "C/C=C\\C", "CC/C=C/CO", "CC/C=C\\CO", "F/C=C/C=C/F", "F/C=C\\C=C/Cl",
+    "C/C(F)=C/Cl", "OC/C=C/c1ccccc1", "N/C=C/CO", "ClC/C=C\\CBr", "C[C;x=R](F)/C=C/Cl", "C[C;x=S](O)CC",
+    "N[C;x=R](C)C(=O)O", "C[C;x=R](F)C[C;x=S](Cl)O", "F/C=C/CC[C;x=S](C)O",
+    "F/C=C/[C;x=S](Cl)O", "C/C=C\\[C;x=R](F)CC", "[O-]/C=C/C", "C/C=C/[NH3+]",
+]
+
+
+def read_stereo(smiles):
+    """-> (reference graph with chirality labels, marks {(x, y): sign read 'x before y'}, uncut tokens)"""
+    s = smiles.replace("\\\\", "\\")
+    toks = render.tokenize_fragment(s, False)
+    if render.render_fragment_tokens(toks) != s:
+        raise ValueError(smiles)
+    def atext(t):
+        if t["a"] and t["v"] == "[" + t["el"] + "]":
+            return t["el"]          # '[C;x=R]' is the plain atom for the reference molecule
+        return t["v"]
+    clean = "".join(atext(t) if t["k"] == "A" else (t["v"] if t["k"] == "B" else (str(t["n"]) if t["k"] == "R" else t["k"]))
+                    for t in toks if t["k"] not in ("Z", "D"))
+    g = read_reference(clean)
+    marks, chiral = {}, {}
+    prev, natoms, stack = None, 0, []
+    pending = None
+    for t in toks:
+        if t["k"] == "A":
+            if pending is not None:
+                marks[(pending[0], natoms)] = pending[1]
+                pending = None
+            for e in t["a"]:
+                if e["k"] == "x":
+                    chiral[natoms] = e["v"]
+            prev = natoms
+            natoms += 1
+        elif t["k"] == "(":
+            stack.append(prev)
+        elif t["k"] == ")":
+            prev = stack.pop()
+        elif t["k"] == "Z":
+            pending = (prev, 1 if t["v"] == "/" else -1)
+    for n, lab in chiral.items():
+        g.nodes[n]["chiral"] = lab
+    return g, marks, toks
